@@ -169,6 +169,11 @@ func (w *bcWrapper) ReceiveEnvelope(e p2p.Envelope) {
 		w.recv(e)
 		w.h.log.add("block_delivered", name, height, info)
 		if i := w.h.indexOf(e.Src.ID()); i >= 0 {
+			for _, a := range w.h.sc.Peers[i].Ahead {
+				if a == height {
+					atomic.AddInt32(&w.h.aheadSeen[i], 1)
+				}
+			}
 			atomic.AddInt32(&w.h.answered[i], 1)
 		}
 	case *bcproto.StatusResponse:
@@ -407,6 +412,8 @@ type harness struct {
 	stallCh      chan string
 	gapArmed     int32
 	gapDone      map[int64]bool
+	aheadSeen    []int32 // per peer: its ahead blocks delivered to the node's reactor
+	reactors     []*peerReactor
 }
 
 func (h *harness) indexOf(id p2p.ID) int {
@@ -663,6 +670,7 @@ type Result struct {
 	Inconclusive string         `json:"inconclusive,omitempty"`
 	Aborted      string         `json:"gave_up,omitempty"`
 	Stalled      bool           `json:"stall_oracle_fired,omitempty"`
+	Decided      bool           `json:"decided_without_handover,omitempty"`
 }
 
 func (h *harness) checkCommit(ht int64, which string, cm *types.Commit) CommitCheck {
@@ -701,8 +709,11 @@ func (h *harness) checkCommit(ht int64, which string, cm *types.Commit) CommitCh
 func runScenario(sc *Scenario, w *world) *Result {
 	start := time.Now()
 	h := &harness{sc: sc, w: w, log: &evlog{}, handCh: make(chan struct{}), reconnects: map[string]int{}, maxReconnect: 6,
-		reqs: make([]int32, len(sc.Peers)), answered: make([]int32, len(sc.Peers)), lastAct: map[int]int64{}, quiet: map[int]int{}, stallCh: make(chan string, 1), gapDone: map[int64]bool{}}
+		reqs: make([]int32, len(sc.Peers)), answered: make([]int32, len(sc.Peers)), lastAct: map[int]int64{}, quiet: map[int]int{}, stallCh: make(chan string, 1), gapDone: map[int64]bool{}, aheadSeen: make([]int32, len(sc.Peers))}
 	dropBound := int32(12)
+	if sc.Class == "leftover" {
+		h.maxReconnect = 0 // few honest peers, and they do not come back
+	}
 	if sc.Class == "long" {
 		h.maxReconnect, dropBound = 60, 150
 		if sc.Version == "v0" {
@@ -714,6 +725,7 @@ func runScenario(sc *Scenario, w *world) *Result {
 	pc := p2pConfig()
 	for i := range sc.Peers {
 		pr := newPeerReactor(h, i)
+		h.reactors = append(h.reactors, pr)
 		sw, id := mkSwitch(pc, sc.Peers[i].Name, fmt.Sprintf("c13-peer-%d-%d", sc.Index, i), map[string]p2p.Reactor{"BLOCKCHAIN": pr}, log.NewNopLogger())
 		h.peerSw = append(h.peerSw, sw)
 		h.peerIDs = append(h.peerIDs, id)
@@ -733,6 +745,34 @@ func runScenario(sc *Scenario, w *world) *Result {
 		}
 	}
 	abortCh := make(chan string, 1)
+	// class "leftover": once its ahead blocks have been delivered the liar leaves, or answers the low heights
+	for i := range sc.Peers {
+		if len(sc.Peers[i].Ahead) == 0 {
+			continue
+		}
+		go func(i int) {
+			// until all ahead blocks are with the node; the pool hands a peer 20 requests at a time in no
+			// particular order, so settle for two of them once no further one has arrived for 150 ms
+			last, lastChange := int32(0), time.Now()
+			for k := 0; k < 800; k++ {
+				n := atomic.LoadInt32(&h.aheadSeen[i])
+				if n != last {
+					last, lastChange = n, time.Now()
+				}
+				if int(n) >= len(sc.Peers[i].Ahead) || (n >= 2 && time.Since(lastChange) > 150*time.Millisecond) {
+					break
+				}
+				time.Sleep(5 * time.Millisecond)
+			}
+			h.log.add("ahead_delivered", sc.Peers[i].Name, 0, fmt.Sprintf("%d of %d", atomic.LoadInt32(&h.aheadSeen[i]), len(sc.Peers[i].Ahead)))
+			if sc.Peers[i].LeaveAfterAhead {
+				h.log.add("liar_leaves", sc.Peers[i].Name, 0, "")
+				_ = h.peerSw[i].Stop()
+				return
+			}
+			h.reactors[i].release()
+		}(i)
+	}
 	// waves of peers that connect, are given requests and leave
 	stopWaves := make(chan struct{})
 	var waveWG sync.WaitGroup
@@ -810,7 +850,8 @@ func runScenario(sc *Scenario, w *world) *Result {
 				if need < 1 {
 					need = 1
 				}
-				if sc.Peers[i].Late && !lateDone[i] && (atomic.LoadInt32(&h.errDrops) >= need || (need == 1 && time.Since(start) > 1500*time.Millisecond)) {
+				// (the 1.5 s fall-back only where no number of drops was asked for)
+				if sc.Peers[i].Late && !lateDone[i] && (atomic.LoadInt32(&h.errDrops) >= need || (sc.Peers[i].LateAfter == 0 && time.Since(start) > 1500*time.Millisecond)) {
 					lateDone[i] = true
 					h.log.add("late_connect", sc.Peers[i].Name, 0, "")
 					p2p.Connect2Switches([]*p2p.Switch{h.node.sw, h.peerSw[i]}, 0, 1)
@@ -1066,7 +1107,8 @@ func (h *harness) evaluate(res *Result) {
 
 	if sc.Version == "v0" || sc.Version == "v1" {
 		before := len(res.Findings)
-		mr, md := h.pairOracles(evs, handSeq, add)
+		mr, md, su := h.pairOracles(evs, handSeq, add)
+		res.Counts["honest_peer_dropped_while_removed_peers_block_still_in_pool"] = su
 		res.Counts["pair_oracle_findings"] = len(res.Findings) - before
 		res.Counts["max.honest_validation_drops_in_a_row_without_liar_removal(limit 4)"] = mr
 		res.Counts["max.deliveries_of_next_block_minus_3x_liar_removals(limit 3)"] = md
@@ -1156,12 +1198,28 @@ func (h *harness) evaluate(res *Result) {
 			res.Counts["handover_below_honest_tip_minus_2"]++
 		}
 	} else {
+		if sc.Class == "leftover" && (sc.Version == "v0" || sc.Version == "v1") {
+			all, any := true, false
+			for _, p := range res.Peers {
+				if !p.Honest {
+					continue
+				}
+				any = true
+				if p.ValidationDrops == 0 {
+					all = false
+				}
+			}
+			if any && all && res.StoreHeight < honestTip-2 {
+				add("v0-tip-not-reached-honest-peers-dropped-after-liar-gone", "every honest peer — they connected only after the lying peer had been removed and delivered canonical blocks only — was dropped by the node for a failed verification; the node is left without peers at height %d of %d", res.StoreHeight, honestTip)
+				res.Decided = true
+			}
+		}
 		res.Inconclusive = "no hand-over before the wall-clock watchdog"
 		if res.Aborted != "" {
 			res.Inconclusive = "no hand-over: " + res.Aborted
 		}
-		if res.Stalled {
-			res.Inconclusive = "" // decided by the stall oracle, not by a wall clock
+		if res.Stalled || res.Decided {
+			res.Inconclusive = "" // decided by an oracle on the events, not by a wall clock
 		}
 		if res.LastSeen != nil && (!res.LastSeen.AllValid || !res.LastSeen.AddrOK) {
 			res.Counts["last_seen_invalid_without_handover"]++
@@ -1202,7 +1260,7 @@ func isValidationDrop(version, reason string) bool {
 //	    re-evaluation can cost two more honest peers, never four);
 //	(c) stuck: honest peers delivered the canonical block s+1 more than 3*r+3 times while the store
 //	    stayed at s and only r lying peers were removed meanwhile.
-func (h *harness) pairOracles(evs []Event, handSeq int, add func(key, format string, a ...interface{})) (maxRun, maxDeliveries int) {
+func (h *harness) pairOracles(evs []Event, handSeq int, add func(key, format string, a ...interface{})) (maxRun, maxDeliveries, staleUsed int) {
 	sc, w := h.sc, h.w
 	s := w.first - 1
 	if sc.NodeStart > 0 {
@@ -1212,6 +1270,14 @@ func (h *harness) pairOracles(evs []Event, handSeq int, add func(key, format str
 	holding := map[string]map[int64]int{} // liar -> height -> seq of its non-canonical answer, since it connected
 	firstHonestDrop, run, liarRemovals, deliveries := -1, 0, 0, 0
 	fired, gone := map[string]bool{}, map[string]bool{}
+	type deliv struct {
+		who  string
+		bad  bool
+		liar bool
+	}
+	lastDeliv := map[int64]deliv{} // height -> the most recent block delivered for it
+	removedAt := map[string]int{}  // liar -> seq of its removal
+	lastSave := -1
 	once := func(key, format string, a ...interface{}) {
 		if !fired[key] {
 			fired[key] = true
@@ -1225,6 +1291,7 @@ func (h *harness) pairOracles(evs []Event, handSeq int, add func(key, format str
 		spec := h.specOf(e.Who)
 		switch e.Kind {
 		case "save":
+			lastSave = e.Seq
 			if e.H > s {
 				s = e.H
 				firstHonestDrop, run, liarRemovals, deliveries = -1, 0, 0, 0
@@ -1235,6 +1302,9 @@ func (h *harness) pairOracles(evs []Event, handSeq int, add func(key, format str
 			}
 			asked[e.Who][e.H] = true
 		case "block_delivered":
+			if spec.Name != "" && e.Info != "undecodable" {
+				lastDeliv[e.H] = deliv{who: e.Who, bad: e.Info != "canonical", liar: !spec.Honest}
+			}
 			switch {
 			case spec.Name == "":
 			case !spec.Honest && e.Info == "noncanonical" && asked[e.Who][e.H] && !gone[e.Who]:
@@ -1258,11 +1328,28 @@ func (h *harness) pairOracles(evs []Event, handSeq int, add func(key, format str
 			case !spec.Honest:
 				delete(holding, e.Who)
 				gone[e.Who] = true
+				removedAt[e.Who] = e.Seq
 				if e.Info != "<nil>" {
 					liarRemovals++
 					run = 0
 				}
 			case isValidationDrop(sc.Version, e.Info):
+				// (d) the failed pair contains a non-canonical block whose sender had been removed earlier
+				// (and the node has saved blocks since, so this is not the evaluation that was in flight
+				// when that peer went): whatever a removed peer delivered must be fetched again
+				for _, bh := range []int64{s + 1, s + 2} {
+					d := lastDeliv[bh]
+					if rm, ok := removedAt[d.who]; ok && d.liar && d.bad && rm < lastSave && lastSave < e.Seq {
+						// Outside class "leftover" an honest peer may be connected while the liar is removed,
+						// and the pool can evaluate one more pair with the removed peer's block before the
+						// requester has dropped it (pre-existing race, the wrong peer is blamed): counted only.
+						staleUsed++
+						if sc.Class != "leftover" {
+							continue
+						}
+						once("v0-honest-peer-dropped-for-removed-peers-leftover-block", "honest peer %s was dropped for a failed verification of the pair (%d,%d): the block at %d is the non-canonical one that %s delivered before the node removed it (the node has saved blocks since that removal), nobody has delivered that height since", e.Who, s+1, s+2, bh, d.who)
+					}
+				}
 				run++
 				if run > maxRun {
 					maxRun = run
